@@ -31,15 +31,17 @@ type Cfg struct {
 	NullSender bool     `json:"nullSender"`
 	Mt         int      `json:"mt"`
 	List       []string `json:"list"`
-	Rw         []string `json:"rw"`    // recipients that reach the queue rewritten (effective != original)
-	Utf8       bool     `json:"utf8"`  // SMTPUTF8 message
-	Chain      bool     `json:"chain"` // the bounce pipeline routes into a second real queue
+	Rw         []string `json:"rw"`      // recipients that reach the queue rewritten (effective != original)
+	Utf8       bool     `json:"utf8"`    // SMTPUTF8 message
+	Chain      bool     `json:"chain"`   // the bounce pipeline routes into a second real queue
 	ErrText    string   `json:"errtext"` // "", "multiline", "nonascii": text of the scripted SMTP errors
 	Idn        bool     `json:"idn"`     // recipients live in an internationalized domain
 	Fwd        string   `json:"fwd"`     // variant (b): "" = target.smtp/target.lmtp, "remote" = the real remote-MX target
 	// RestartFirst: the process is stopped (cleanly) after the message was accepted and before its
 	// first attempt; every attempt then works from what a restarted queue reads back from the spool
 	RestartFirst bool `json:"restartFirst"`
+	// CaseVar: the recipients differ only by the letter case of the local part
+	CaseVar bool `json:"caseVar"`
 }
 
 type Step struct {
@@ -108,19 +110,44 @@ const idnDomA = "@xn--e1afmkfd.example"
 
 var useIdn bool // set per behaviour (behaviours run sequentially in a process)
 
+// caseVar: the recipients' mailboxes differ only by the letter case of the local part
+// (local parts are case-sensitive, RFC 5321 2.4: they are different recipients)
+var caseVar bool
+var caseLocals = map[string]string{"r1": "rcpt", "r2": "Rcpt", "r3": "RCPT"}
+
+func local(id string) string {
+	if caseVar {
+		if l, ok := caseLocals[id]; ok {
+			return l
+		}
+	}
+	return id
+}
+
+func unlocal(l string) string {
+	if caseVar {
+		for id, v := range caseLocals {
+			if v == l {
+				return id
+			}
+		}
+	}
+	return l
+}
+
 func addr(id string) string {
 	if useIdn {
-		return id + idnDomU
+		return local(id) + idnDomU
 	}
-	return id + dom
+	return local(id) + dom
 }
 
 // effAddr is the address a rewritten recipient has inside the queue.
 func effAddr(id string) string {
 	if useIdn {
-		return id + "-eff" + idnDomU
+		return local(id) + "-eff" + idnDomU
 	}
-	return id + "-eff" + dom
+	return local(id) + "-eff" + dom
 }
 
 func stripDom(a string) string {
@@ -133,16 +160,16 @@ func stripDom(a string) string {
 }
 
 // idOf maps an address seen at the target boundary to the abstract recipient.
-func idOf(a string) string { return strings.TrimSuffix(stripDom(a), "-eff") }
+func idOf(a string) string { return unlocal(strings.TrimSuffix(stripDom(a), "-eff")) }
 
 // reportID maps an address listed in a failure report: the address the client supplied
 // gives the recipient id, the effective (rewritten) one is marked "eff:".
 func reportID(a string) string {
 	a = stripDom(a)
 	if strings.HasSuffix(a, "-eff") {
-		return "eff:" + strings.TrimSuffix(a, "-eff")
+		return "eff:" + unlocal(strings.TrimSuffix(a, "-eff"))
 	}
-	return a
+	return unlocal(a)
 }
 
 const retryDelay = time.Minute
@@ -163,6 +190,7 @@ func runBehaviour(t *testing.T, b Behaviour, w *bufio.Writer) {
 	}
 	defer os.RemoveAll(dir)
 	useIdn = b.Cfg.Idn
+	caseVar = b.Cfg.CaseVar
 	switch b.Cfg.ErrText {
 	case "multiline":
 		scripted.MsgSuffix = "\r\nsecond line\nthird line"
@@ -171,7 +199,7 @@ func runBehaviour(t *testing.T, b Behaviour, w *bufio.Writer) {
 	default:
 		scripted.MsgSuffix = ""
 	}
-	defer func() { scripted.MsgSuffix = ""; useIdn = false }()
+	defer func() { scripted.MsgSuffix = ""; useIdn = false; caseVar = false }()
 	synctest.Test(t, func(t *testing.T) {
 		tr := vtrace.New(w, b.ID)
 		rw := map[string]bool{}
